@@ -84,6 +84,14 @@ def matrix(tier, rnd):
                       P.DO("send", msg=P.U(5)), P.W("idle"), P.DO("quit") if cause == "quit" else P.DO("kill"), P.W("returned")]
             s = P.scenario(0, script, opts={"fps": 120}, inp={"kind": kind}, watchdog_ms=4000, isolate=True, gomaxprocs=1)
             add((s, {"cause": cause, "point": "after-double-restore", "pending": "none", "causes": [cause]}))
+    # Kill runs the shutdown and so does Run on its way out: nothing the program owns may be closed twice (F22: the input
+    # reader's epoll descriptor and pipe were; the second close hits whatever got those descriptor numbers meanwhile - here
+    # a canary of the harness that keeps the lowest free number occupied)
+    for cause in ("kill", "kill", "quit", "cancel", "kill"):
+        script = [P.W("started"), P.W("idle"), P.DO("fd-canary", us=400000), P.DO("sleep", us=30000)]
+        script += [{"kill": P.DO("kill"), "quit": P.DO("quit"), "cancel": P.DO("cancel")}[cause], P.W("returned"), P.DO("sleep", us=60000)]
+        s = P.scenario(0, script, opts={"fps": 120}, inp={"kind": "pipe"}, watchdog_ms=4000, isolate=True, ctx=(cause == "cancel"))
+        add((s, {"cause": cause, "point": "idle:descriptors", "pending": "none", "causes": [cause], "canary": True}))
     # an input message read but undeliverable while a cause strikes (the read loop gives up with a context error)
     for rep in range(10 if tier == "quick" else 60):
         for cause in ("cancel", "kill"):
@@ -131,7 +139,17 @@ def judge(res, metas, results, proofs_ok, broken, cex):
     res.oblige("Spec on real runs (Coq: Spec.LifeSpec.outcome_ok): Run returned with the error class of a cause that struck, %d runs" % len(pairs),
                not bad, [(m["cause"], m["point"], m["pending"], r["run_returned"], r["run_err"]) for m, r in bad[:4]])
     res.oblige("Spec on real runs: end of input alone does not end the program", not eof_bad)
+    can = [(m, r) for m, r in pairs if m.get("canary") and not P.machinery_problem(r)]
+    stolen = [(m, r) for m, r in can if r.get("fd_stolen")]
+    res.oblige("Spec on real runs: the program closes no descriptor twice on its way out (%d runs, %d canary descriptors watched)" %
+               (len(can), sum(r.get("fd_canaries", 0) for _, r in can)), not stolen and all(r.get("fd_canaries", 0) > 50 for _, r in can),
+               [(m["cause"], r.get("fd_stolen"), r.get("fd_canaries")) for m, r in (stolen or can)[:3]])
     found = False
+    for m, r in stolen[:1]:
+        res.violation("C04:descriptor-closed-twice:%s" % m["cause"],
+                      "while the program ended (%s) %d descriptor(s) that the harness had just opened were closed by somebody else: the program closed descriptor numbers it no longer owned" % (m["cause"], r["fd_stolen"]),
+                      {"scenario_meta": m, "result": P.summarize(r)})
+        found = True
     for m, r in (bad[:1] + eof_bad[:1]):
         hang = not r["run_returned"]
         sig = "C04:%s:%s@%s" % ("hang" if hang else "error", "+".join(m["causes"]), m["point"])
